@@ -64,8 +64,8 @@ def generate(rng, tier):
     quick = (tier == "quick")
     g = rng.fork("c09")
     maxn = 40 if quick else 60
-    nsmall = 70 if quick else 800
-    nbig = 40 if quick else 600
+    nsmall = 70 if quick else 1200
+    nbig = 40 if quick else 900
     def emit(n, fam, tag, guess=None, rhs=None):
         ints = g.chance(1, 2)
         r = gen_system(g, n, fam, ints)
